@@ -98,6 +98,9 @@ def run(ctx):
                 ctx.violation('R2', 'release finishes a queued acquisition iff its issuer is blocked on it', where(aa, fins[0].line),
                               'finish() is called on a queued acquisition with no test that its issuer is blocked on it (an actor that has not reached its wait yet has no simcall to answer)',
                               key='R2|acquire_async|finish iff waiting')
+            elif waiting is None and not fins and not any(e.kind == 'branch' and any(ex.mentions(e.atom, lv) for lv in loopvars) for e in evs):
+                ctx.violation('R2', 'release finishes a queued acquisition iff its issuer is blocked on it', where(aa),
+                              'the queued acquisitions are granted but never finished: the actors blocked on the barrier are not woken', key='R2|acquire_async|finish iff waiting')
             elif waiting is None:
                 ctx.unrecognised('R2', 'release: membership test in waiting_synchros_ not recognised')
             else:
